@@ -91,12 +91,13 @@ func describe(y *yang.YangType) string {
 	}
 	return k + ":"
 }
+
 type rtype struct {
-	Kind  string   `json:"kind"`
-	Name  string   `json:"name"`
-	Units string   `json:"units"`
-	Dflt  string   `json:"dflt"`
-	Pats  []string `json:"pats"`
+	Kind    string   `json:"kind"`
+	Name    string   `json:"name"`
+	Units   string   `json:"units"`
+	Dflt    string   `json:"dflt"`
+	Pats    []string `json:"pats"`
 	Bound   string   `json:"bound"`
 	Members []member `json:"members"`
 }
